@@ -39,22 +39,22 @@ fn reference_sum(g: &[u128; APY_BUCKETS], t: u128, nb: usize) -> u128 {
         }
         i += 1;
     }
-    s.wrapping_add((part_g & MASK68).wrapping_mul(part_secs & MASK27))
+    // same operand order and width as the code's own product, so that the solver can match them
+    s.wrapping_add(part_g.wrapping_mul(part_secs))
 }
 
 const MASK68: u128 = (1u128 << 68) - 1;
 const MASK27: u128 = (1u128 << 27) - 1;
 
 /// Arbitrary gradient table: the first `nb` entries (the only ones an elapsed time `<= nb` weeks
-/// can touch) are `<= APY_MAX` (the cap enforced by `update_apy_gradient_*`; assembled from 68
-/// symbolic bits, so the upper 60 bits are constants for the solver), the others any u128.
-pub(crate) fn any_gradient(nb: usize) -> [u128; APY_BUCKETS] {
+/// can touch) are `c << shift` with `c` any 16-bit value, and `<= APY_MAX` (the cap enforced by
+/// `update_apy_gradient_*`); the others are any u128.
+pub(crate) fn any_gradient(nb: usize, shift: u32) -> [u128; APY_BUCKETS] {
     let mut g: [u128; APY_BUCKETS] = kani::any();
     let mut i = 0;
     while i < nb {
-        let lo: u64 = kani::any();
-        let hi: u8 = kani::any();
-        let v = (lo as u128) | (((hi & 0x0f) as u128) << 64);
+        let c: u8 = kani::any();
+        let v = (c as u128) << shift;
         kani::assume(v <= APY_MAX);
         g[i] = v;
         i += 1;
@@ -62,10 +62,10 @@ pub(crate) fn any_gradient(nb: usize) -> [u128; APY_BUCKETS] {
     g
 }
 
-fn apy_is_per_second_average(t_min: u128, t_max: u128, nb: usize) {
+fn apy_is_per_second_average(t_min: u128, t_max: u128, nb: usize, shift: u32) {
     assert!(nb == APY_BUCKETS || t_max <= (nb as u128) * W);
     assert!(t_max <= MASK27);
-    let g = any_gradient(nb);
+    let g = any_gradient(nb, shift);
     let start: i64 = kani::any();
     let now: i64 = kani::any();
     // assumption: stake_start_time is a unix timestamp (>= 0); `now - stake_start_time` is an
@@ -79,7 +79,7 @@ fn apy_is_per_second_average(t_min: u128, t_max: u128, nb: usize) {
     let s = reference_sum(&g, t, nb);
     assert!(q <= APY_MAX, "C38: average above every bucket value");
     // q < 2^68 and t < 2^27: the product cannot wrap (if the line above fails the run fails anyway)
-    let qt = (q & MASK68).wrapping_mul(t & MASK27);
+    let qt = q.wrapping_mul(t);
     assert!(qt <= s, "C38: time-weighted APY above the per-second average");
     assert!(s - qt < t, "C38: time-weighted APY below the floor of the per-second average");
 
@@ -96,7 +96,7 @@ fn apy_is_per_second_average(t_min: u128, t_max: u128, nb: usize) {
 #[kani::proof]
 #[kani::unwind(7)]
 fn c38_apy_is_per_second_average_first_4_weeks() {
-    apy_is_per_second_average(1, 4 * W, 5);
+    apy_is_per_second_average(1, 4 * W, 5, 0);
 }
 
 //@ prop=C38 tier=quick kind=hold
@@ -106,7 +106,7 @@ fn c38_apy_is_per_second_average_first_4_weeks() {
 #[kani::proof]
 #[kani::unwind(54)]
 fn c38_apy_is_per_second_average_around_last_bucket() {
-    apy_is_per_second_average(51 * W + 1, 55 * W, APY_BUCKETS);
+    apy_is_per_second_average(51 * W + 1, 55 * W, APY_BUCKETS, 0);
 }
 
 //@ prop=C38 tier=thorough kind=hold
@@ -116,5 +116,107 @@ fn c38_apy_is_per_second_average_around_last_bucket() {
 #[kani::proof]
 #[kani::unwind(54)]
 fn c38_apy_is_per_second_average_two_years() {
-    apy_is_per_second_average(1, 104 * W, APY_BUCKETS);
+    apy_is_per_second_average(1, 104 * W, APY_BUCKETS, 0);
+}
+
+/// Boundary durations (seconds): around 0, around every week boundary that changes the bucket
+/// pattern (first weeks, last regular bucket 51/52, first week past the table 53), mid-week values,
+/// and long stakes (2, 10, 68 and 317 years).
+const DURATIONS: [u128; 28] = [
+    1, 2, 59, W - 1, W, W + 1, W + W / 2, 2 * W - 1, 2 * W, 2 * W + 1, 3 * W + 86_399, 4 * W,
+    26 * W + 12_345, 51 * W - 1, 51 * W, 51 * W + 1, 52 * W - 1, 52 * W, 52 * W + 1, 53 * W - 1,
+    53 * W, 53 * W + 1, 54 * W, 60 * W + 777, 104 * W, 520 * W + 3, 1u128 << 31, 10_000_000_000,
+];
+
+//@ prop=C38 tier=quick kind=hold
+//@ enc=compute_time_weighted_apy (via verif_hooks)
+//@ bound=all 53 gradients arbitrary in [0, APY_MAX = 200e18] (full width); stake start any i64 >= 0 (assumption: unix timestamp) with now = start + T not overflowing; elapsed time T ranges over the 28 boundary durations listed in DURATIONS (1 s .. 317 years; chosen symbolically) — T is NOT arbitrary here; unwind 54
+//@ stubs=none
+#[kani::proof]
+#[kani::unwind(54)]
+fn c38_apy_exact_at_boundary_durations_full_width_gradients() {
+    let g = any_gradient_full();
+    let k: usize = kani::any();
+    kani::assume(k < DURATIONS.len());
+    let t = DURATIONS[k];
+    let start: i64 = kani::any();
+    kani::assume(start >= 0 && (start as u128) + t <= i64::MAX as u128);
+    let now = start + t as i64;
+
+    let q = compute_time_weighted_apy(start, now, &g);
+
+    // exact sum, no wrap possible: g < 2^68, t < 2^34; checked anyway
+    let s = reference_sum_checked(&g, t);
+    assert!(q <= APY_MAX, "C38: average above every bucket value");
+    let qt = q.checked_mul(t).unwrap();
+    assert!(qt <= s, "C38: time-weighted APY above the per-second average");
+    assert!(s - qt < t, "C38: time-weighted APY below the floor of the per-second average");
+    kani::cover!(k == 0 && q == g[0] && q > 0);
+    kani::cover!(k == DURATIONS.len() - 1 && q > 0);
+    kani::cover!(t == 53 * W + 1 && s != qt);
+    kani::cover!(t == W + 1 && q != g[0] && q != g[1]);
+}
+
+/// All 53 gradients arbitrary in `[0, APY_MAX]` (68 symbolic bits each).
+fn any_gradient_full() -> [u128; APY_BUCKETS] {
+    let mut g = [0u128; APY_BUCKETS];
+    let mut i = 0;
+    while i < APY_BUCKETS {
+        let lo: u64 = kani::any();
+        let hi: u8 = kani::any();
+        let v = (lo as u128) | (((hi & 0x0f) as u128) << 64);
+        kani::assume(v <= APY_MAX);
+        g[i] = v;
+        i += 1;
+    }
+    g
+}
+
+/// `reference_sum` over all buckets with overflow-checked arithmetic.
+fn reference_sum_checked(g: &[u128; APY_BUCKETS], t: u128) -> u128 {
+    let mut s: u128 = 0;
+    let mut i = 0;
+    while i < APY_BUCKETS {
+        let lo = (i as u128) * W;
+        // seconds of the stake that fall into bucket i
+        let secs = if t <= lo {
+            0
+        } else if i == LAST {
+            t - lo
+        } else if t - lo >= W {
+            W
+        } else {
+            t - lo
+        };
+        s = s.checked_add(g[i].checked_mul(secs).unwrap()).unwrap();
+        i += 1;
+    }
+    s
+}
+
+fn one_t(t: u128, g: [u128; APY_BUCKETS]) {
+    let start: i64 = kani::any();
+    kani::assume(start >= 0 && (start as u128) + t <= i64::MAX as u128);
+    let now = start + t as i64;
+    let q = compute_time_weighted_apy(start, now, &g);
+    let s = reference_sum_checked(&g, t);
+    let qt = q.checked_mul(t).unwrap();
+    assert!(qt <= s, "C38: time-weighted APY above the per-second average");
+    assert!(s - qt < t, "C38: time-weighted APY below the floor of the per-second average");
+}
+#[kani::proof]
+#[kani::unwind(54)]
+fn probe_one_t8() {
+    one_t(53 * W + 1, any_gradient(APY_BUCKETS, 0));
+}
+#[kani::proof]
+#[kani::unwind(54)]
+fn probe_one_t8_start0() {
+    let g = any_gradient(APY_BUCKETS, 0);
+    let t = 53 * W + 1;
+    let q = compute_time_weighted_apy(0, t as i64, &g);
+    let s = reference_sum_checked(&g, t);
+    let qt = q.checked_mul(t).unwrap();
+    assert!(qt <= s, "C38: time-weighted APY above the per-second average");
+    assert!(s - qt < t, "C38: time-weighted APY below the floor of the per-second average");
 }
